@@ -514,15 +514,20 @@ def check(prop, tier, seed, replay=None):
         else:
             harness_problems.append(str(e))
     if harness_problems:
-        print("HARNESS-FAILURE property=%s build" % prop)
+        # Some harness binaries do not build against this tree.  That is a harness failure (exit 2 at the end), but the
+        # binaries that did build are still run: a violation they observe is reported (exit 1 takes precedence).
+        print("HARNESS-FAILURE property=%s build (%d of %d binaries; the others are run)" % (prop, len(harness_problems), len(tus)))
         for h in harness_problems:
-            print(h)
-        return 2
+            print(h[:1500])
+        if not bins:
+            return 2
 
     # ---- run
     results = []
     jobs = []
     runs = [r for r in cfg["runs"] if tier in r.get("tiers", ("quick", "thorough"))]
+    if harness_problems:
+        runs = [r for r in runs if r["bin"] in bins]
     if replay:
         with open(replay) as fh:
             ro = json.load(fh)
@@ -665,6 +670,9 @@ def check(prop, tier, seed, replay=None):
              time.time() - t0, bsecs, ncached))
     if unlisted:
         return 1
+    if harness_problems:
+        print("INCONCLUSIVE property=%s %d harness binaries did not build" % (prop, len(harness_problems)))
+        return 2
     if inconclusive or masked or floor_fail:
         for s in inconclusive + floor_fail:
             print("INCONCLUSIVE property=%s %s" % (prop, s))
